@@ -419,7 +419,6 @@ Theorem C07_abort_all_os_waiter_throws_every_wait : forall a isos waits sched t,
   thrown (fst cf) t + remaining (snd cf t) = waits t /\ (apc (snd cf t) = QDone -> thrown (fst cf) t = waits t).
 Proof. exact os_waiter_throws_every_wait. Qed.
 Print Assumptions C07_abort_all_os_waiter_throws_every_wait.
-=======
 (* ---- the timed predicate forms  wait_until / wait_for (lock, t, pred)  and  (lock, stop_token, t, pred) ----
    (round h12a; the expression returned after a time-out is regenerated from the header into Gen/GenTimedPred.v on
    every run: these statements — and C07_wait_returns_with_lock_and_pred above — are about the header as it is now) *)
